@@ -106,14 +106,16 @@ for n0, cap0 in [(0, 1), (1, 1), (2, 2), (2, 8)]:
 # numbers outside the jdn path (C13: integers up to 2^53 print exactly)
 NUM_STUBS = ['janet_buffer_ensure:pn_ensure_stub', 'janet_buffer_extra:pn_extra_stub', 'snprintf:pn_snprintf_stub', 'floor:pn_floor_stub']
 unit('pp.number.to_string',
-     'number_to_string_b (string / print / %v / %q / %p): an integer-valued number of magnitude up to 2^53 is printed with %.0f (every digit, exactly), zero of either sign as 0, anything else with a '
-     '%g conversion of >= DBL_DIG digits; snprintf writes directly behind the existing contents into room reserved before (>= 25 bytes, size given <= room), the buffer grows by exactly the '
+     'number_to_string_b (string / print / %v / %q / %p): an integer-valued number of magnitude up to 2^53 is printed with %.0f (every digit, exactly), zero of either sign as 0, anything else with the '
+     '%.<DBL_DIG>g conversion (integers with -2^53 <= x <= 2^53, both ends included, use %.0f); snprintf writes directly behind the existing contents into room reserved before (>= 25 bytes, size given <= room), the buffer grows by exactly the '
      'characters printed and earlier contents are untouched', 'pp_number.c', 'h_number_to_string', props=['C13', 'C11'],
      bound='output buffer empty or holding 7 earlier bytes; every double; every rendering length 1..24; unwind 26 with unwinding assertions', unwind=26, replace_calls=NUM_STUBS,
      functions=['number_to_string_b'],
      assumes=['floor(x) == x exactly for integer-valued x (stub over a ghost flag)', 'snprintf with %.0f (|x| <= 2^53) or %.<n>g produces 1..24 characters and returns that length (C standard)',
               'janet_buffer_ensure(b, capacity, growth) makes room for capacity bytes (units seq.buffer.ensure); model block of 96 bytes'],
-     mutants=[M('integers-printed-with-%g', '? "%.0f" : ("%." STR(DBL_DIG) "g");', '? "%." STR(DBL_DIG) "g" : ("%." STR(DBL_DIG) "g");', 'C13 print'),
+     mutants=[M('upper-limit-2^53-excluded', '                       x <= JANET_INTMAX_DOUBLE &&', '                       x < JANET_INTMAX_DOUBLE &&', 'C13 print'),
+              M('lower-limit-minus-2^53-excluded', '                       x >= JANET_INTMIN_DOUBLE)', '                       x > JANET_INTMIN_DOUBLE)', 'C13 print'),
+              M('integers-printed-with-%g', '? "%.0f" : ("%." STR(DBL_DIG) "g");', '? "%." STR(DBL_DIG) "g" : ("%." STR(DBL_DIG) "g");', 'C13 print'),
               M('range-test-dropped', '    const char *fmt = (x == floor(x) &&\n                       x <= JANET_INTMAX_DOUBLE &&\n                       x >= JANET_INTMIN_DOUBLE)', '    const char *fmt = (x == floor(x))', 'C13 print'),
               M('count-not-advanced', '        count = snprintf((char *) buffer->data + buffer->count, BUFSIZE, fmt, x);\n    }\n    buffer->count += count;', '        count = snprintf((char *) buffer->data + buffer->count, BUFSIZE, fmt, x);\n    }\n    buffer->count += 1;', 'C13 print'),
               M('room-smaller-than-size', '    janet_buffer_ensure(buffer, buffer->count + BUFSIZE, 2);\n    const char *fmt', '    janet_buffer_ensure(buffer, buffer->count + 32, 2);\n    const char *fmt', 'C13 print'),
@@ -122,13 +124,117 @@ unit('pp.number.dispatch', 'janet_to_string_b prints a number value through numb
      props=['C13', 'C11'], link=['wrap.c'], replace_calls=['number_to_string_b:pn_number_stub'], functions=['janet_to_string_b'], unwind=4,
      assumes=['number_to_string_b is replaced by a recording stub (unit pp.number.to_string)'],
      mutants=[M('numbers-truncated-to-integer', '            number_to_string_b(buffer, janet_unwrap_number(x));', '            number_to_string_b(buffer, (double) (int64_t) janet_unwrap_number(x));', 'C13 print|overflow|conversion')])
-unit('pp.number.integer', 'integer_to_string_b: every int32 (INT32_MIN included) prints as its exact decimal text - optional minus sign, digits without leading zeros, 1..11 characters inside the room '
-     'reserved, count advanced by the length, earlier contents untouched', 'pp_number.c', 'h_integer_to_string', cls='width-bounded', props=['C13'],
-     unwind=13, replace_calls=NUM_STUBS, functions=['integer_to_string_b', 'count_dig10'],
+unit('pp.number.integer', 'integer_to_string_b: an int32 (INT32_MIN included) prints as its exact decimal text - optional minus sign, digits without leading zeros, 1..11 characters inside the room '
+     'reserved, count advanced by the length, earlier contents untouched', 'pp_number.c', 'h_integer_to_string', props=['C13'],
+     bound='|x| <= 99999 plus 18 x 3 values at the powers of ten and the int32 limits, INT32_MIN and INT32_MAX included (the full 2^32 domain does not solve in 5 min with minisat, cadical or z3); unwind 20 with unwinding assertions', unwind=20, replace_calls=NUM_STUBS, functions=['integer_to_string_b', 'count_dig10'], cbmc=['--sat-solver', 'cadical'],
      assumes=['janet_buffer_extra(b, n) makes room for n more bytes (units seq.buffer.extra); model block of 96 bytes'],
      mutants=[M('digit-count-off-by-one', '        if (x > -100) return result + 1;', '        if (x >= -100) return result + 1;', 'C13 print'),
               M('negation-overflow', '    if (x > 0) {\n        x = -x;\n    } else {\n        neg = 1;', '    if (x < 0) {\n        x = -x;\n        neg = 1;\n        *buf++ = \'-\';\n        x = -x;\n    } else if (0) {\n        neg = 1;', 'C13 print|overflow'),
               M('sign-not-counted', '    buffer->count += len + neg;', '    buffer->count += len;', 'C13 print')])
+
+# ---------------------------------------------------------------------------------------------------------------------
+# print_jdn_one
+JDN_STUBS = ['print_jdn_one:pj_child_stub', 'janet_buffer_push_u8:pj_push_u8_stub', 'janet_buffer_push_cstring:pj_push_cstring_stub', 'janet_buffer_ensure:pj_ensure_stub',
+             'janet_description_b:pj_description_stub', 'janet_buffer_dtostr:pj_dtostr_stub', 'janet_table_put:pj_table_put_stub']
+JDN_ENTRY = ['print_jdn_one__entry:print_jdn_one']
+JDN_ASS = ['recursive calls of print_jdn_one are replaced by a recording stub (value, depth budget, position in the output) that returns either status - the function is proved one level at a time',
+           'janet_buffer_push_u8 / push_cstring append exactly the given bytes; janet_description_b (units pp.escape.*) and janet_buffer_dtostr (unit num.dtostr) are logged as one token each',
+           'JANET_NO_NANBOX configuration of the same sources']
+
+
+def jdn(tag, clause, entry, muts, **kw):
+    unit('pp.jdn.' + tag, 'print_jdn_one: ' + clause, kw.pop('harness', 'pp_jdn.c'), entry, nanbox=False, link=kw.pop('link', ['wrap.c']), functions=['print_jdn_one'] + kw.pop('functions', []),
+         replace_calls=kw.pop('replace_calls', JDN_STUBS), replace_calls2=JDN_ENTRY, assumes=kw.pop('assumes', JDN_ASS), mutants=muts, unwind=kw.pop('unwind', 12), **kw)
+
+
+DEPTH0 = '    if (depth == 0) return 1;\n    switch (janet_type(x)) {\n        case JANET_NIL:\n        case JANET_BOOLEAN:\n        case JANET_BUFFER:'
+jdn('depth0', 'with an exhausted depth budget every value is refused - nothing printed, nothing visited (janet_jdn_ raises "could not print to jdn format")', 'h_jdn_depth0',
+    [M('budget-not-checked', DEPTH0, DEPTH0.replace('    if (depth == 0) return 1;\n', ''), 'C11 jdn'),
+     M('budget-exhaustion-reported-as-success', DEPTH0, DEPTH0.replace('if (depth == 0) return 1;', 'if (depth == 0) return 0;'), 'C11 jdn')], cls='full-domain')
+jdn('atoms', 'functions, cfunctions, fibers, abstracts and raw pointers are refused with nothing printed, so are NaN and the infinities; a finite number goes to the 17-digit printer '
+    'janet_buffer_dtostr with exactly its value; nil, booleans, strings and buffers go to janet_description_b exactly once', 'h_jdn_atoms',
+    [M('nan-printed', '            if (isnan(num)) return 1;\n', '', 'C11 jdn'),
+     M('infinity-printed', '            if (isinf(num)) return 1;\n', '', 'C11 jdn'),
+     M('functions-printed', '        case JANET_BUFFER:\n        case JANET_STRING:\n            janet_description_b(S->buffer, x);\n            break;\n        case JANET_NUMBER:',
+       '        case JANET_BUFFER:\n        case JANET_STRING:\n        case JANET_FUNCTION:\n            janet_description_b(S->buffer, x);\n            break;\n        case JANET_NUMBER:', 'C11 jdn'),
+     M('numbers-through-the-15-digit-printer', '            janet_buffer_dtostr(S->buffer, num);\n', '            janet_description_b(S->buffer, x);\n', 'C11 jdn')], cls='full-domain')
+TUP = ("            janet_buffer_push_u8(S->buffer, isb ? '[' : '(');\n            for (int32_t i = 0; i < janet_tuple_length(t); i++) {\n                if (i) janet_buffer_push_u8(S->buffer, ' ');\n"
+       "                if (print_jdn_one(S, t[i], depth - 1)) return 1;\n            }\n            janet_buffer_push_u8(S->buffer, isb ? ']' : ')');")
+jdn('tuple', 'a tuple prints as (e0 e1 ...) or [e0 e1 ...] according to its bracket flag, elements in order separated by one space, each with depth budget - 1; the first refused element '
+    'stops the printing and refuses the tuple', 'h_jdn_seq',
+    [M('bracket-kind-lost', TUP, TUP.replace("isb ? '[' : '('", "'('").replace("isb ? ']' : ')'", "')'"), 'C11 jdn'),
+     M('closing-bracket-mismatch', TUP, TUP.replace("isb ? ']' : ')'", "')'"), 'C11 jdn'),
+     M('budget-not-decreased', TUP, TUP.replace('t[i], depth - 1)', 't[i], depth)'), 'C11 jdn'),
+     M('no-separator', TUP, TUP.replace("                if (i) janet_buffer_push_u8(S->buffer, ' ');\n", ''), 'C11 jdn'),
+     M('refused-element-ignored', TUP, TUP.replace('if (print_jdn_one(S, t[i], depth - 1)) return 1;', 'print_jdn_one(S, t[i], depth - 1);'), 'C11 jdn')],
+    bound='tuples of at most 3 elements of any type; unwind 12 with unwinding assertions', defines=['-DSEQ_ARRAY=0'])
+ARR = ('            janet_buffer_push_cstring(S->buffer, "@[");\n            for (int32_t i = 0; i < a->count; i++) {\n                if (i) janet_buffer_push_u8(S->buffer, \' \');\n'
+       '                if (print_jdn_one(S, a->data[i], depth - 1)) return 1;\n            }\n            janet_buffer_push_u8(S->buffer, \']\');')
+jdn('array', 'an array prints as @[e0 e1 ...], elements below count in order separated by one space, each with depth budget - 1 (an array that contains itself runs out of budget instead of '
+    'recursing forever); the first refused element stops the printing and refuses the array', 'h_jdn_seq',
+    [M('array-printed-as-tuple', ARR, ARR.replace('"@["', '"["'), 'C11 jdn'),
+     M('capacity-printed', ARR, ARR.replace('i < a->count', 'i < a->capacity'), 'C11 jdn'),
+     M('budget-not-decreased', ARR, ARR.replace('a->data[i], depth - 1)', 'a->data[i], depth)'), 'C11 jdn')],
+    bound='arrays of at most 3 elements of any type; unwind 12 with unwinding assertions', defines=['-DSEQ_ARRAY=1'])
+TAB = ('            janet_buffer_push_cstring(S->buffer, "@{");\n            int isFirst = 1;\n            for (int32_t i = 0; i < tab->capacity; i++) {\n                const JanetKV *kv = tab->data + i;\n'
+       '                if (janet_checktype(kv->key, JANET_NIL)) continue;\n                if (!isFirst) janet_buffer_push_u8(S->buffer, \' \');\n                isFirst = 0;\n'
+       '                if (print_jdn_one(S, kv->key, depth - 1)) return 1;\n                janet_buffer_push_u8(S->buffer, \' \');\n                if (print_jdn_one(S, kv->value, depth - 1)) return 1;\n')
+jdn('table', 'a table prints as @{k0 v0 k1 v1 ...}: live buckets in bucket order, key space value, pairs separated by one space, empty buckets skipped, every key and value with depth budget - 1; '
+    'the first refused key or value stops the printing and refuses the table', 'h_jdn_dict',
+    [M('table-printed-as-struct', TAB, TAB.replace('"@{"', '"{"'), 'C11 jdn'),
+     M('empty-buckets-printed', TAB, TAB.replace('                if (janet_checktype(kv->key, JANET_NIL)) continue;\n', ''), 'C11 jdn'),
+     M('value-budget-not-decreased', TAB, TAB.replace('kv->value, depth - 1)', 'kv->value, depth)'), 'C11 jdn'),
+     M('refused-key-ignored', TAB, TAB.replace('if (print_jdn_one(S, kv->key, depth - 1)) return 1;', 'print_jdn_one(S, kv->key, depth - 1);'), 'C11 jdn')],
+    bound='tables of capacity 2 (every combination of live / empty buckets, keys and values of any type); unwind 12 with unwinding assertions', defines=['-DDICT_TABLE=1'])
+STR = ("            janet_buffer_push_u8(S->buffer, '{');\n            int isFirst = 1;\n            for (int32_t i = 0; i < janet_struct_capacity(st); i++) {\n                const JanetKV *kv = st + i;\n"
+       "                if (janet_checktype(kv->key, JANET_NIL)) continue;\n                if (!isFirst) janet_buffer_push_u8(S->buffer, ' ');\n                isFirst = 0;\n"
+       "                if (print_jdn_one(S, kv->key, depth - 1)) return 1;\n                janet_buffer_push_u8(S->buffer, ' ');\n")
+jdn('struct', 'a struct prints as {k0 v0 k1 v1 ...}: live buckets in bucket order, key space value, pairs separated by one space, empty buckets skipped, every key and value with depth budget - 1; '
+    'the first refused key or value stops the printing and refuses the struct', 'h_jdn_dict',
+    [M('struct-printed-as-table', STR, STR.replace("janet_buffer_push_u8(S->buffer, '{');", 'janet_buffer_push_cstring(S->buffer, "@{");'), 'C11 jdn'),
+     M('key-and-value-glued', STR, STR.replace("                janet_buffer_push_u8(S->buffer, ' ');\n", '', 1) if False else STR[:STR.rindex("                janet_buffer_push_u8(S->buffer, ' ');\n")], 'C11 jdn'),
+     M('length-instead-of-capacity', STR, STR.replace('janet_struct_capacity(st)', 'janet_struct_length(st)'), 'C11 jdn')],
+    bound='structs of capacity 2 (every combination of live / empty buckets, keys and values of any type); unwind 12 with unwinding assertions', defines=['-DDICT_TABLE=0'])
+
+# symbols and keywords
+SYM_STUBS = ['print_jdn_one:ps_child_stub', 'janet_description_b:ps_description_stub']
+BAD = ("    if (len && issym && sym[0] >= '0' && sym[0] <= '9') return 1;\n    if (!janet_valid_utf8(sym, len)) return 1;\n    for (int32_t i = 0; i < len; i++) {\n        if (!janet_is_symbol_char(sym[i])) return 1;\n    }")
+jdn('symbol.alphabet', 'a symbol / keyword is accepted only if every byte belongs to the symbol alphabet, the text is valid UTF-8 and (symbols) it does not start with a digit - the tokens the reader '
+    'rejects or splits are refused, nothing printed; plain ASCII text of the alphabet is never refused; accepted text is printed once through janet_description_b', 'h_jdn_symbol_alphabet',
+    [M('digit-check-dropped', BAD, BAD.replace("    if (len && issym && sym[0] >= '0' && sym[0] <= '9') return 1;\n", ''), 'C11 jdn symbol'),
+     M('utf8-check-dropped', BAD, BAD.replace('    if (!janet_valid_utf8(sym, len)) return 1;\n', ''), 'C11 jdn symbol'),
+     M('last-character-unchecked', BAD, BAD.replace('i < len; i++', 'i + 1 < len; i++'), 'C11 jdn symbol'),
+     M('keywords-with-digits-refused', BAD, BAD.replace('len && issym && sym[0]', 'len && sym[0]'), 'C11 jdn symbol'),
+     M('bad-symbols-printed', '            if (contains_bad_chars(janet_unwrap_keyword(x), janet_type(x) == JANET_SYMBOL)) return 1;\n', '', 'C11 jdn symbol')],
+    harness='pp_jdn_sym.c', src=['pp.c', 'parse.c'], replace_calls=SYM_STUBS, functions=['contains_bad_chars'],
+    bound='symbol / keyword texts of at most 3 bytes (every byte value); unwind 12 with unwinding assertions',
+    assumes=['janet_description_b is replaced by a recording stub', 'JANET_NO_NANBOX configuration of the same sources'])
+RT_STUBS = ['print_jdn_one:ps_child_stub', 'janet_buffer_push_u8:ps_push_u8_stub', 'janet_buffer_push_bytes:ps_push_bytes_stub', 'janet_symbol:ps_symbol_stub', 'realloc:ps_realloc_stub']
+RT_ASS = ['janet_buffer_push_u8 / push_bytes append exactly the given bytes (recording stubs)', 'janet_symbol (interning, units sc.*) is replaced by a stub that records the text it is given',
+          'the reader is the real janet_parser_consume / root / tokenchar of parse.c with the real number scanner of strtod.c, positioned inside an open parenthesis', 'JANET_NO_NANBOX configuration of the same sources']
+RT_CLAUSE = 'printed by %%j and read back, %s: refused by the printer, or the reader (real parse.c + strtod.c), given the printed text and a delimiter, yields exactly one value of the same type interned from the same text'
+RT_REPAIR = ' Repair: contains_bad_chars must also refuse (for symbols) the empty text, a leading colon, the words nil / true / false and any text janet_scan_numeric accepts.'
+RT_MUT = [M('bad-symbols-printed', '            if (contains_bad_chars(janet_unwrap_keyword(x), janet_type(x) == JANET_SYMBOL)) return 1;\n', '            if (0) return 1;\n', 'C11 jdn symbol|REACH')]
+RT_KW_MUT = [M('keyword-colon-dropped', "        case JANET_KEYWORD:\n            janet_buffer_push_u8(buffer, ':');\n            break;", '        case JANET_KEYWORD:\n            break;', 'C11 jdn symbol')]
+for cls_no, tag, what, muts, failing in [
+    (1, 'letters', 'symbols of one or two lower-case letters (all 702)', [M('symbols-printed-with-colon', "        case JANET_KEYWORD:\n            janet_buffer_push_u8(buffer, ':');", "        case JANET_KEYWORD:\n        case JANET_SYMBOL:\n            janet_buffer_push_u8(buffer, ':');", 'C11 jdn symbol')], None),
+    (2, 'keyword', 'keywords of 0..2 bytes of the ASCII symbol alphabet (digits, colons, signs included)', RT_KW_MUT, None),
+    (3, 'reserved', 'the symbols nil, true, false', RT_MUT,
+     'GENUINE DEFECT (C11): print_jdn_one accepts the symbols whose text is nil, true or false; the text reads back as the constant, not as the symbol. '
+     '(string/format "%j" (symbol "nil")) -> "nil", (parse "nil") -> nil. Failing obligation: "a printed symbol reads back as a symbol". Reproducer: header of /verif/harness/pp_jdn_sym.c (c11_jdn_symbols.janet).' + RT_REPAIR),
+    (4, 'numeric', 'symbols whose text scans as a number (-1, +1, .5, -0xf, -2r1)', RT_MUT,
+     'GENUINE DEFECT (C11): print_jdn_one accepts symbols whose text the reader scans as a number (only a leading DIGIT is refused; a leading sign or point is not): '
+     '(string/format "%j" (symbol "-1")) -> "-1", (parse "-1") -> the number -1; likewise +1, .5, -0x10, -2r1, -1_. Failing obligation: "a printed symbol reads back as a symbol". Reproducer: header of /verif/harness/pp_jdn_sym.c.' + RT_REPAIR),
+    (5, 'colon', 'symbols with a leading colon (: and :a .. :z)', RT_MUT,
+     'GENUINE DEFECT (C11): print_jdn_one accepts symbols that start with a colon; the reader turns the text into a KEYWORD: (string/format "%j" (symbol ":a")) -> ":a", (parse ":a") -> the keyword :a. '
+     'Failing obligation: "a printed symbol reads back as a symbol". Reproducer: header of /verif/harness/pp_jdn_sym.c.' + RT_REPAIR),
+    (6, 'empty', 'the empty symbol', RT_MUT,
+     'GENUINE DEFECT (C11): print_jdn_one accepts the empty symbol and prints nothing for it: (string/format "%j" (symbol "")) -> "", which reads back as no value at all ((parse "") -> error "no value"); inside '
+     'a container the element silently disappears: (string/format "%j" [(symbol "") 1]) -> "( 1)". Failing obligation: "the printed text reads back as exactly one value". Reproducer: header of /verif/harness/pp_jdn_sym.c.' + RT_REPAIR)]:
+    jdn('symbol.rt.' + tag, RT_CLAUSE % what, 'h_jdn_symbol_roundtrip', muts, harness='pp_jdn_sym.c', src=['pp.c', 'parse.c', 'strtod.c'], replace_calls=RT_STUBS, defines=['-DSYMCLASS=%d' % cls_no],
+        functions=['contains_bad_chars', 'janet_description_b', 'janet_to_string_b', 'janet_parser_consume', 'tokenchar', 'janet_scan_numeric'], min_reach_any=1,
+        link=['wrap.c', 'util.c'], link_keep={'util.c': ['janet_cstrcmp']},
+        bound=what + '; unwind 12 with unwinding assertions', assumes=RT_ASS, failing=failing, timeout=300)
 
 if __name__ == '__main__':
     json.dump({'units': U}, open(os.path.join(V, 'units', 'C11_pp.json'), 'w'), indent=1)
